@@ -115,6 +115,99 @@ theorem partial_succeeds_if_full_does (P : Parser β) (fs : FS β) (t : APath) (
   ⟨_, partial_eq_restricted_full P fs t r f hfull hone hplain⟩
 
 
+
+/-! ### un-requested files are not read -/
+
+/-- the two file systems answer `exists` and `read` on this path alike -/
+def SameFile (fs₁ fs₂ : FS β) (cs : List Path.Comp) : Prop :=
+  existsAt fs₁ cs = existsAt fs₂ cs ∧ readFile fs₁ cs = readFile fs₂ cs
+
+/-- `fs₁` and `fs₂` agree on everything the request `r` makes the loader look at: the UFO directory itself,
+    metainfo / fontinfo / layercontents (always read), the single files of the requested parts, the selected
+    layers, the listing of the requested stores.  Nothing is assumed about lib / groups / kerning / features files,
+    layer directories and store directories that were not requested: they may be corrupt, missing or different. -/
+structure AgreeOnReadSet (P : Parser β) (t : APath) (r : Request) (fs₁ fs₂ : FS β) : Prop where
+  root : node fs₁ t = node fs₂ t
+  metainfo : SameFile fs₁ fs₂ (sub t "metainfo.plist")
+  fontinfo : SameFile fs₁ fs₂ (sub t "fontinfo.plist")
+  layercontents : SameFile fs₁ fs₂ (sub t "layercontents.plist")
+  lib : r.lib = true → SameFile fs₁ fs₂ (sub t "lib.plist")
+  groups : r.groups = true → SameFile fs₁ fs₂ (sub t "groups.plist")
+  kerning : r.kerning = true → SameFile fs₁ fs₂ (sub t "kerning.plist")
+  features : r.features = true → SameFile fs₁ fs₂ (sub t "features.fea")
+  layers : ∀ n d, shouldLoad r n d = true → loadLayer P fs₁ t n d = loadLayer P fs₂ t n d
+  data : r.data = true → loadStore true .data fs₁ t = loadStore true .data fs₂ t
+  images : r.images = true → loadStore true .images fs₁ t = loadStore true .images fs₂ t
+
+theorem readParsed_same {α : Type} {fs₁ fs₂ : FS β} {cs} (h : SameFile fs₁ fs₂ cs) (parse : β → Option α) (name : String) :
+    readParsed fs₁ cs parse name = readParsed fs₂ cs parse name := by
+  unfold readParsed; rw [h.2]
+
+theorem readOpt_same {α : Type} {fs₁ fs₂ : FS β} {cs} (sw : Bool) (h : sw = true → SameFile fs₁ fs₂ cs)
+    (parse : β → Option α) (name : String) :
+    readOpt sw fs₁ cs parse name = readOpt sw fs₂ cs parse name := by
+  cases sw with
+  | false => simp [readOpt]
+  | true => unfold readOpt; rw [(h rfl).1, readParsed_same (h rfl)]
+
+theorem loadLayers_same {P : Parser β} {t : APath} {r : Request} {fs₁ fs₂ : FS β}
+    (h : ∀ n d, shouldLoad r n d = true → loadLayer P fs₁ t n d = loadLayer P fs₂ t n d) :
+    ∀ lc, loadLayers P fs₁ t r lc = loadLayers P fs₂ t r lc := by
+  intro lc
+  induction lc with
+  | nil => rfl
+  | cons e rest ih =>
+    obtain ⟨n, d⟩ := e
+    unfold loadLayers
+    by_cases hs : shouldLoad r n d = true
+    · simp only [hs, if_true, h n d hs, ih]
+    · simp only [hs, Bool.false_eq_true, if_false, ih]
+
+theorem loadStore_same {kind : StoreKind} {t : APath} {fs₁ fs₂ : FS β} (sw : Bool)
+    (h : sw = true → loadStore true kind fs₁ t = loadStore true kind fs₂ t) :
+    loadStore sw kind fs₁ t = loadStore sw kind fs₂ t := by
+  cases sw with
+  | false => simp [loadStore]
+  | true => exact h rfl
+
+/-- **`unrequested_files_not_read`**: the load gives the same result — the same font or the same error — on any two
+    file systems that agree on the read set of the request.  Corrupting, removing or adding anything else (the files
+    of un-requested parts, un-selected layer directories, un-requested store directories) cannot matter. -/
+theorem unrequested_files_not_read (P : Parser β) (t : APath) (r : Request) (fs₁ fs₂ : FS β)
+    (h : AgreeOnReadSet P t r fs₁ fs₂) : loadImpl P fs₁ t r = loadImpl P fs₂ t r := by
+  have hsc : loadScalars P fs₁ t r = loadScalars P fs₂ t r := by
+    unfold loadScalars libStage groupsStage tokStage
+    rw [h.root, h.metainfo.1, readParsed_same h.metainfo, readOpt_same r.lib h.lib,
+      readOpt_same true (fun _ => h.fontinfo), readOpt_same r.groups h.groups,
+      readOpt_same r.kerning h.kerning, readOpt_same r.features h.features]
+  have hls : loadLayerSet P fs₁ t r = loadLayerSet P fs₂ t r := by
+    unfold loadLayerSet
+    simp only
+    rw [h.layercontents.1, readParsed_same h.layercontents]
+    cases readParsed fs₂ (sub t "layercontents.plist") P.layercontents "layercontents.plist" with
+    | error e => rfl
+    | ok lc => simp only [loadLayers_same h.layers lc]
+  unfold loadImpl
+  rw [hsc, hls, loadStore_same r.data h.data, loadStore_same r.images h.images]
+
+/-- the agreement relation is reflexive (so the hypothesis is satisfiable), and for the empty request it does not
+    mention a single optional file, layer directory or store directory -/
+theorem agreeOnReadSet_refl (P : Parser β) (t : APath) (r : Request) (fs : FS β) : AgreeOnReadSet P t r fs fs :=
+  ⟨rfl, ⟨rfl, rfl⟩, ⟨rfl, rfl⟩, ⟨rfl, rfl⟩, fun _ => ⟨rfl, rfl⟩, fun _ => ⟨rfl, rfl⟩, fun _ => ⟨rfl, rfl⟩,
+   fun _ => ⟨rfl, rfl⟩, fun _ _ _ => rfl, fun _ => rfl, fun _ => rfl⟩
+
+def nothing : Request :=
+  { lib := false, groups := false, kerning := false, features := false, data := false, images := false,
+    all := false, loadDefault := false, custom := none }
+
+example (P : Parser β) (t : APath) (fs₁ fs₂ : FS β)
+    (hroot : node fs₁ t = node fs₂ t) (hm : SameFile fs₁ fs₂ (sub t "metainfo.plist"))
+    (hi : SameFile fs₁ fs₂ (sub t "fontinfo.plist")) (hl : SameFile fs₁ fs₂ (sub t "layercontents.plist")) :
+    loadImpl P fs₁ t nothing = loadImpl P fs₂ t nothing :=
+  unrequested_files_not_read P t nothing fs₁ fs₂
+    ⟨hroot, hm, hi, hl, fun h => (by cases h), fun h => (by cases h), fun h => (by cases h), fun h => (by cases h),
+     fun n d h => (by simp [shouldLoad, nothing] at h), fun h => (by cases h), fun h => (by cases h)⟩
+
 /-! ### non-vacuity of the file-level theorem -/
 
 def P0 : Parser Nat where
